@@ -404,7 +404,8 @@ Proof.
   destruct (Ascii.ascii_dec "#"%char "#"%char) as [_|N]; [|congruence]. destruct i; reflexivity.
 Qed.
 
-Definition sound_knobs (K : knobs) : Prop := k_uri K = true /\ k_dup K = true /\ k_nodeid K = true.
+Definition sound_knobs (K : knobs) : Prop :=
+  k_uri K = true /\ k_dup K = true /\ k_nodeid K = true /\ k_iter K = true /\ k_exact K = true.
 
 Section Key.
   Variable dig_ok : string -> string -> tree -> bool.
@@ -423,16 +424,17 @@ Section Key.
       /\ dig_ok alg dv (remove_at item [j]) = true
       /\ sig_ok k sv si = true.
   Proof.
-    intros (Ku & Kd & Kn) Hone Hsub Hclear Hm Hschema H.
+    intros (Ku & Kd & Kn & Ki & Ke) Hone Hsub Hclear Hm Hschema H.
     unfold check_signature in H.
     destruct schema; [|discriminate]. simpl in H.
     destruct (validators K item) eqn:Hv; [|discriminate]. simpl in H.
     assert (Hone' : one_sig item = true).
-    { destruct Hone as [Ho|Ho]; [|assumption]. rewrite Ho in H. simpl in H. destruct (one_sig item); [reflexivity | discriminate]. }
+    { destruct Hone as [Ho|Ho]; [|assumption]. unfold one_sig_k in H. rewrite Ho, Ki in H. simpl in H.
+      destruct (one_sig item); [reflexivity | discriminate]. }
     assert (H' : first_ok (xmlsec_verify dig_ok sig_ok K doc nn
                   match attr "ID" item with Some i => if is_empty i then None else Some i | None => None end)
                   (md_certs c (let i := issuer_text item in if is_empty i then fb else i)) = Some (ds, k)).
-    { destruct (k_onesig K && negb (one_sig item)); [discriminate | exact H]. }
+    { destruct (k_onesig K && negb (one_sig_k K item)); [discriminate | exact H]. }
     clear H. apply first_ok_In in H' as [Hk Hx].
     destruct (attr "ID" item) as [i|] eqn:Hid; [|exfalso; now apply Hschema].
     (* validators *)
@@ -444,7 +446,7 @@ Section Key.
     destruct (single C14NMETHOD si) as [cm|]; [|discriminate].
     destruct (single TRANSFORMS r) as [T|] eqn:ET; [|discriminate].
     rewrite !andb_true_iff in Hv. destruct Hv as ((((((((Va & Vb) & Vc) & Vd) & Ve) & Vf) & Vg) & Vh) & Vi).
-    rewrite Ku in Vc. simpl in Vc. apply String.eqb_eq in Vc.
+    rewrite Ku, Ke in Vc. simpl in Vc. apply String.eqb_eq in Vc.
     unfold id_str in Vc. rewrite Hid in Vc. subst uri.
     assert (Hi : is_empty i = false).
     { destruct i; [simpl in Vb; discriminate | reflexivity]. }
@@ -1313,9 +1315,9 @@ Proof. vm_compute. reflexivity. Qed.
 
 (* necessity of three conjuncts of the defence: with the conjunct switched off (everything else as coded)
    a wrapping document is accepted with the attacker's identity; the code as it is rejects it *)
-Definition no_uri : knobs := {| k_uri := false; k_dup := true; k_nodeid := true; k_onesig := true; k_issuer := true |}.
-Definition no_dup : knobs := {| k_uri := true; k_dup := false; k_nodeid := true; k_onesig := true; k_issuer := true |}.
-Definition no_nodeid : knobs := {| k_uri := true; k_dup := true; k_nodeid := false; k_onesig := true; k_issuer := true |}.
+Definition no_uri : knobs := {| k_uri := false; k_dup := true; k_nodeid := true; k_onesig := true; k_issuer := true; k_iter := true; k_exact := true |}.
+Definition no_dup : knobs := {| k_uri := true; k_dup := false; k_nodeid := true; k_onesig := true; k_issuer := true; k_iter := true; k_exact := true |}.
+Definition no_nodeid : knobs := {| k_uri := true; k_dup := true; k_nodeid := false; k_onesig := true; k_issuer := true; k_iter := true; k_exact := true |}.
 
 Definition admits_wrapping (K : knobs) (d : tree) : Prop :=
   Ex.names (Ex.run K Ex.cfgA d) = Some (Some ("admin", None))
@@ -1329,8 +1331,30 @@ Proof. repeat split; vm_compute; reflexivity. Qed.
 Lemma necessity_nodeid : admits_wrapping no_nodeid Ex.doc_nodeid.
 Proof. repeat split; vm_compute; reflexivity. Qed.
 
-Definition no_onesig : knobs := {| k_uri := true; k_dup := true; k_nodeid := true; k_onesig := false; k_issuer := true |}.
+Definition no_onesig : knobs := {| k_uri := true; k_dup := true; k_nodeid := true; k_onesig := false; k_issuer := true; k_iter := true; k_exact := true |}.
 Lemma necessity_onesig : admits_wrapping no_onesig Ex.doc_f1.
+Proof. repeat split; vm_compute; reflexivity. Qed.
+
+(* the one-signature test must look at ALL descendants in document order: a genuine, still signed assertion
+   nested (in the Advice) AHEAD of the wrapper's own self-referencing ds:Signature child is what xmlsec1 verifies *)
+Definition no_iter : knobs :=
+  {| k_uri := true; k_dup := true; k_nodeid := true; k_onesig := true; k_issuer := true; k_iter := false; k_exact := true |}.
+Definition doc_nested_first : tree :=
+  Ex.response Ex.IDP
+    [Node ASSERTION [("ID", "E")] ""
+          [Ex.txt ISSUER Ex.IDP; Ex.el ADVICE [Ex.A_signed]; Ex.sig "#E" "x" "y";
+           Ex.el SUBJECT [Ex.txt NAMEID "admin"];
+           Ex.el ATTRSTMT [Node ATTRIBUTE [("Name", "mail"); ("NameFormat", "uri")] "" [Ex.txt ATTRVALUE "admin@evil.example"]]]].
+Lemma necessity_first_signature_is_child : admits_wrapping no_iter doc_nested_first.
+Proof. repeat split; vm_compute; reflexivity. Qed.
+
+(* the Reference URI must equal "#"+ID exactly: with a case-insensitive comparison the genuine signature
+   (URI #A) moved onto an attacker assertion whose ID is "a" passes, and xmlsec1 resolves #A to the genuine A *)
+Definition no_exact : knobs :=
+  {| k_uri := true; k_dup := true; k_nodeid := true; k_onesig := true; k_issuer := true; k_iter := true; k_exact := false |}.
+Definition doc_case_id : tree :=
+  Ex.response Ex.IDP [Ex.assertion "a" Ex.IDP [Ex.sigA] "admin" "admin@evil.example" [Ex.el ADVICE [Ex.genuineA]]].
+Lemma necessity_exact_id : admits_wrapping no_exact doc_case_id.
 Proof. repeat split; vm_compute; reflexivity. Qed.
 
 (* C02-F2 (fixed by 64feb908): assertion-only signature, the reported issuer was the unsigned envelope's *)
